@@ -1,5 +1,7 @@
 package whispertool
 
+import "os"
+
 // C06 — on-disk format: checked against a reference decoder written from the classic
 // Whisper format description (big-endian fields, contiguous archives, 12-byte slots
 // positioned relative to the first slot's interval).
@@ -130,4 +132,34 @@ func VerifC06_Read() {
 			vrt.Assert(got.IsNaN(), "C06.read a slot holding another interval reads as absent")
 		}
 	}
+}
+
+// VerifC06_Recreate: Create over an existing file (non-exclusive open flags, the way a database
+// is re-created in place) still yields a file of exactly header + 12 x total points bytes, whatever
+// length and content the old file had.
+func VerifC06_Recreate() {
+	ls := []string{"1s:2s", "1s:2s,2s:6s"}
+	txt := ls[vrt.Choose("layout", len(ls))]
+	list, _ := ParseArchiveInfoList(txt)
+	h, _ := NewHeader(Sum, 0.5, list)
+	exp := int(h.ExpectedFileSize())
+	sizes := []int{0, 5, exp - 12, exp, exp + 12, exp + 40}
+	old := vrt.Bytes("old", sizes[vrt.Choose("oldSize", len(sizes))])
+	path := vrt.TempFile("c06r.wsp", old)
+	w, err := Create(path, list, Sum, 0.5, WithOpenFileFlag(os.O_RDWR|os.O_CREATE))
+	vrt.Assert(err == nil, "C06.recreate create over an existing file succeeds")
+	vrt.Assert(w.Sync() == nil, "C06.recreate sync succeeds")
+	vrt.Assert(w.Close() == nil, "C06.recreate close succeeds")
+	vrt.Reach("recreated")
+	b := vrt.ReadFile(path)
+	vrt.Assert(len(b) == exp, "C06.recreate total length = header + 12 x total points")
+	na := len(list)
+	vrt.Assert(int(refBE32(b, 12)) == na, "C06.recreate archive count")
+	off := 16 + 12*na
+	for i, a := range list {
+		vrt.Assert(int(refBE32(b, 16+12*i)) == off, "C06.recreate archive offsets contiguous")
+		vrt.Assert(refBE32(b, 16+12*i+8) == a.numberOfPoints, "C06.recreate points")
+		off += 12 * int(a.numberOfPoints)
+	}
+	vrt.Assert(off == len(b), "C06.recreate archives fill the file exactly")
 }
